@@ -17,7 +17,9 @@ func init() {
 			"(2) key binding: the storage key of such an entry is the same expression as the path given to encrypt; in the current record format the AEAD associated data of Seal and Open derive from the whole `path` parameter (nil only when path is empty) and are the bare byte conversion of that parameter — no slicing, indexing, concatenation or call between the parameter and the AEAD operand; reads decrypt under the key they were fetched with; writer and reader use the same header layout (term in [0:4], version at [4], ciphertext from [5]); " +
 			"(3) short or unknown-version records are refused before they are sliced: every [:4] slice of a fetched record is cut by a len>=4 guard, decrypt by len>5, and the version switch's default arm returns an error; " +
 			"(4) the logical.Storage methods of the barrier and of its transaction reach the backend only through putInternal/lockSwitchedGet/deleteWithBackend/listPageWithBackend; " +
-			"(5) who-may-call: every invoke of physical.Backend.Put/Delete outside the physical layers and the barrier package is in a frozen table whose rows pin the storage key to a reviewed constant; constructors of directStorageAccess are tabled.",
+			"(5) who-may-call: every invoke of physical.Backend.Put/Delete outside the physical layers and the barrier package is in a frozen table whose rows pin the storage key to a reviewed constant; constructors of directStorageAccess are tabled; a sys/raw handler uses the accessor storageByPath returned on the very key value it classified; writers through the StorageAccess indirection (the unencrypted accessor for root seals) are tabled and the seals' keys pinned to the two seal-config constants; " +
+			"(6) what the bootstrap writers store: the stored-keys and recovery-key records carry proto.Marshal of the seal's Encrypt result on every path and are written behind Encrypt's success edge; the raw rekey backups are written behind EncryptShares' success and every share hex-encoded into them is read out of results.SecretShares as overwritten by EncryptShares' result (no later overwrite); " +
+			"(2b) every writer of the format byte stores AESGCMVersion2 (the key-bound format); (3b) the len>=4 cut holds for every [:4] term slice of the barrier package, including the in-memory Decrypt.",
 		NotDecided: "that AES-GCM authenticates (Go crypto/cipher is trusted); the plaintext-canary scan of a live store; enumeration of tampered records; legacy-format (version 1) relocation, which the statement itself excludes.",
 		Run:        runC01,
 	})
@@ -495,6 +497,7 @@ func runC01(c *eng.Ctx, thorough bool) {
 			c.OK(nil, "callers{logical.NewLogicalStorage}", 0, "no server package wraps a physical backend as unencrypted logical.Storage")
 		}
 	}
+	runC01Gaps2(c)
 }
 
 func reQuote(s string) string {
